@@ -17,6 +17,8 @@ pub enum Ty {
     MapStrInt,
     MapIntStr,
     MapStrList,
+    Ts,
+    Dur,
     Dyn,
 }
 
@@ -42,6 +44,8 @@ pub const NAMES: &[(&str, Ty)] = &[
     ("by", Ty::Bytes),
     ("u", Ty::UInt),
     ("d", Ty::Double),
+    ("ts", Ty::Ts),
+    ("dur", Ty::Dur),
 ];
 
 const ITER_VARS: &[&str] = &["x", "k", "i", "l", "s", "size", "v", "x"];
@@ -215,6 +219,8 @@ pub fn gen_value(r: &mut Rng, ty: Ty, n_shared: usize) -> VSpec {
                     .collect(),
             )
         }
+        Ty::Ts => VSpec::Ts(r.range(0, 2_000_000_000), (r.below(1000) * 1_000_000) as u32, (r.range(-12, 14) * 3600) as i32),
+        Ty::Dur => VSpec::Dur(r.range(-5_000_000_000, 5_000_000_000)),
         Ty::Dyn => VSpec::Null,
     }
 }
@@ -245,12 +251,6 @@ pub fn gen_recipe(r: &mut Rng) -> Recipe {
             gen_value(r, ty, n_shared)
         };
         vars.push((name.to_string(), v));
-    }
-    if r.chance(1, 10) {
-        vars.push(("dur".to_string(), VSpec::Dur(r.range(-5_000_000_000, 5_000_000_000))));
-    }
-    if r.chance(1, 10) {
-        vars.push(("ts".to_string(), VSpec::Ts(r.range(0, 2_000_000_000), 0, (r.range(-12, 14) * 3600) as i32)));
     }
     Recipe {
         shared,
@@ -358,7 +358,7 @@ impl<'r> PG<'r> {
     }
 
     fn any_ty(&mut self) -> Ty {
-        *self.r.pick(&[Ty::Int, Ty::Str, Ty::Bool, Ty::ListInt, Ty::ListStr, Ty::ListList, Ty::MapStrInt, Ty::UInt, Ty::Double, Ty::Bytes, Ty::MapIntStr, Ty::MapStrList])
+        *self.r.pick(&[Ty::Int, Ty::Str, Ty::Bool, Ty::ListInt, Ty::ListStr, Ty::ListList, Ty::MapStrInt, Ty::UInt, Ty::Double, Ty::Bytes, Ty::MapIntStr, Ty::MapStrList, Ty::Ts, Ty::Dur])
     }
 
     fn gen(&mut self, ty: Ty, depth: u32) -> G {
@@ -402,8 +402,58 @@ impl<'r> PG<'r> {
         (self.gen(ty, depth), ty)
     }
 
+    /// The less common built-ins (conversions, timestamp/duration functions, bytes, multi-argument
+    /// max/min, contains on maps and bytes): a change under test may hang state off any of them.
+    fn builtin(&mut self, ty: Ty, depth: u32) -> Option<G> {
+        let d = depth.saturating_sub(1);
+        let call = |name: &str, recv: Option<G>, args: Vec<G>| G::Call(name.into(), recv.map(Box::new), args);
+        Some(match ty {
+            Ty::Int => match self.r.below(8) {
+                0..=2 => {
+                    let acc = *self.r.pick(&["getFullYear", "getMonth", "getDate", "getDayOfMonth", "getDayOfWeek", "getDayOfYear", "getHours", "getMinutes", "getSeconds", "getMilliseconds"]);
+                    let t = self.gen(Ty::Ts, d);
+                    call(acc, Some(t), vec![])
+                }
+                3 => call("int", None, vec![G::Lit((*self.r.pick(&["'12'", "'-3'", "2.5", "7u", "'x'"])).into())]),
+                4 => {
+                    let a = self.calling(|s| s.gen(Ty::Str, d));
+                    call("size", None, vec![call("bytes", None, vec![a])])
+                }
+                5 => call("size", None, vec![self.var_or(Ty::Bytes, G::Lit("b'abc'".into()))]),
+                6 => {
+                    let (a, b, c) = (self.gen(Ty::Int, 0), self.gen(Ty::Int, 0), self.gen(Ty::Int, 0));
+                    call(*self.r.pick(&["max", "min"]), None, vec![a, b, c])
+                }
+                _ => call("int", None, vec![self.calling(|s| s.gen(Ty::Double, d))]),
+            },
+            Ty::Str => {
+                let t = *self.r.pick(&[Ty::Ts, Ty::Dur, Ty::Double, Ty::Bytes, Ty::UInt, Ty::Int]);
+                let a = self.calling(|s| s.gen(t, d));
+                call("string", None, vec![a])
+            }
+            Ty::Bool => match self.r.below(7) {
+                0 => G::Bin((*self.r.pick(&["<", ">=", "=="])).into(), Box::new(self.gen(Ty::Dur, d)), Box::new(self.gen(Ty::Dur, d))),
+                1 => G::Bin((*self.r.pick(&["<", ">=", "!="])).into(), Box::new(self.gen(Ty::Ts, d)), Box::new(self.gen(Ty::Ts, d))),
+                2 => call("contains", Some(self.var_or(Ty::Bytes, G::Lit("b'abc'".into()))), vec![G::Lit("b'b'".into())]),
+                3 => {
+                    let m = self.gen(Ty::MapStrInt, d);
+                    call("contains", Some(m), vec![G::Lit(format!("'{}'", self.r.pick(MAP_KEYS)))])
+                }
+                4 => G::Bin(">".into(), Box::new(call("double", None, vec![self.calling(|s| s.gen(Ty::Int, d))])), Box::new(G::Lit("1.5".into()))),
+                5 => G::Bin("==".into(), Box::new(call("uint", None, vec![self.calling(|s| s.gen(Ty::Int, 0))])), Box::new(G::Lit("1u".into()))),
+                _ => G::Bin("==".into(), Box::new(call("bytes", None, vec![self.calling(|s| s.gen(Ty::Str, d))])), Box::new(G::Lit("b'ab'".into()))),
+            },
+            _ => return None,
+        })
+    }
+
     fn gen_typed(&mut self, ty: Ty, depth: u32) -> G {
         let leaf = depth == 0 || self.nodes > 70;
+        if !leaf && self.call_depth < 2 && matches!(ty, Ty::Int | Ty::Str | Ty::Bool) && self.r.chance(1, 14) {
+            if let Some(g) = self.builtin(ty, depth) {
+                return g;
+            }
+        }
         match ty {
             Ty::Int => {
                 if leaf {
@@ -560,6 +610,28 @@ impl<'r> PG<'r> {
                     self.var_or(Ty::MapStrList, l)
                 } else {
                     G::Map(vec![(G::Lit("'a'".into()), self.gen(Ty::ListInt, depth - 1)), (self.gen(Ty::Str, depth - 1), self.gen(Ty::ListInt, depth - 1))])
+                }
+            }
+            Ty::Ts => {
+                let lit = G::Call("timestamp".into(), None, vec![G::Lit((*self.r.pick(&["'2023-05-28T10:20:30Z'", "'1999-12-31T23:59:59.999+02:00'", "'2024-02-29T00:00:00-08:00'", "'bad'"])).into())]);
+                if leaf || self.r.chance(1, 2) {
+                    self.var_or(Ty::Ts, lit)
+                } else if self.r.chance(1, 2) {
+                    G::Bin((*self.r.pick(&["+", "-"])).into(), Box::new(self.gen(Ty::Ts, depth - 1)), Box::new(self.gen(Ty::Dur, depth - 1)))
+                } else {
+                    lit
+                }
+            }
+            Ty::Dur => {
+                let lit = G::Call("duration".into(), None, vec![G::Lit((*self.r.pick(&["'1h'", "'90m'", "'1.5s'", "'-2ms'", "'1h30m1s'", "'nope'"])).into())]);
+                if leaf || self.r.chance(1, 2) {
+                    self.var_or(Ty::Dur, lit)
+                } else {
+                    match self.r.below(3) {
+                        0 => G::Bin((*self.r.pick(&["+", "-"])).into(), Box::new(self.gen(Ty::Dur, depth - 1)), Box::new(self.gen(Ty::Dur, depth - 1))),
+                        1 => G::Bin("-".into(), Box::new(self.gen(Ty::Ts, depth - 1)), Box::new(self.gen(Ty::Ts, depth - 1))),
+                        _ => lit,
+                    }
                 }
             }
             Ty::Dyn => {
@@ -847,6 +919,7 @@ fn gen_ops(r: &mut Rng, lim: &Limits, n_programs: usize, execs: u64, root_names:
                             ValSrc::RootVar((*r.pick(&same)).clone())
                         }
                     }
+                    8 => ValSrc::Handoff(r.usize(8)),
                     _ => ValSrc::Retained(r.usize(8)),
                 };
                 ops.push(Op::Define { name: name.to_string(), src });
